@@ -30,6 +30,9 @@ func checkC01(c *Ctx) Meta {
 	checkTxUnderManagerLock(c, "C01-LOCK", []string{"ExportKeystore", "ImportKeystore", "DeleteKeystore"})
 	checkLoopAddrEscape(c, "C01-BRANCH", []*ssa.Function{c.Fn("poc/wallet/keystore", "createManagerKeyScope")})
 	c01Fields(c)
+	// what export reads is what the wallet shows: a cleared remark is cleared in the store as well
+	// (otherwise the exported file, and so the restored wallet, carries a remark the wallet no longer has)
+	checkRemarkCleared(c, "C01-FIELDS")
 	c01Branch(c)
 	c01Auth(c)
 	c01Tamper(c)
